@@ -559,11 +559,12 @@ pub fn run(line: &str) -> String {
     }
     let (expected, clean, flag) = reference::check(&case, &r.out);
     let mut line = format!(
-        "{} {} {} {}",
+        "{} {} {} {}{}",
         hex_or_dash(&r.out),
         nat_list_str(&r.inv),
         hex_or_dash(&expected),
-        clean as u8
+        clean.0 as u8,
+        clean.1 as u8
     );
     if let Some(flag) = flag {
         line.push_str(&format!(" ||ORACLE:C07:{flag}"));
@@ -884,6 +885,7 @@ mod reference {
         inv: Vec<usize>,
         text_pending: bool,
         saw_implicit: bool,
+        saw_touched_implicit: bool,
         saw_eof_unclosed: bool,
     }
 
@@ -936,6 +938,9 @@ mod reference {
         }
         fn close_implicit(&mut self, o: OpenEl, at_eof: bool) {
             if let Some(el) = o.elem {
+                if !at_eof {
+                    self.saw_touched_implicit = true;
+                }
                 if el.inner_removed {
                     self.suppress -= 1;
                 }
@@ -1155,7 +1160,7 @@ mod reference {
     }
 
     /// The documented output, and `Some(flag text)` if the implementation's output differs from it.
-    pub fn check(case: &Case, out: &[u8]) -> (Vec<u8>, bool, Option<String>) {
+    pub fn check(case: &Case, out: &[u8]) -> (Vec<u8>, (bool, bool), Option<String>) {
         let mut ed = Ed {
             case,
             open: vec![],
@@ -1164,11 +1169,16 @@ mod reference {
             inv: vec![0; case.handlers.len()],
             text_pending: false,
             saw_implicit: false,
+            saw_touched_implicit: false,
             saw_eof_unclosed: false,
         };
         ed.run();
         // "clean": no element with end-region edits ended without an end tag of its own
-        let clean = !ed.saw_implicit && !ed.saw_eof_unclosed;
+        // "tidy": moreover no element handler ran on any implicitly closed element
+        let clean = (
+            !ed.saw_implicit && !ed.saw_eof_unclosed,
+            !ed.saw_touched_implicit && !ed.saw_eof_unclosed,
+        );
         if ed.out == out {
             return (ed.out, clean, None);
         }
